@@ -9,7 +9,7 @@
      989c360a64663db9ffa6ca74ba973c95de3fef8d312e50766d26f0f2e8b2e05f  integrate/change_zoom.go
      8dac45b8dd30d5efb41249df0231397e85ae7ade5c7cbccf111382311450ffc4  shape/line.go
      a7b52779d0e746dc0273ec11ba62cf1dc67176bcb8c1cbb57475aa9f12d7e308  shape/point.go
-     2bea6073ef59cc97542704f8547eb87b82c36f2bd58b404c9e1163a318d6ee83  transform/convert_quadkey_and_Vertical_id.go
+     97a8d24c37ca0c2a52f8db27c86a4726cb022e2313bdb9af41f2881bc6c919a8  transform/convert_quadkey_and_Vertical_id.go
 *)
 From Coq Require Import ZArith Bool.
 Open Scope Z_scope.
@@ -91,7 +91,9 @@ Definition ConvertZToMinMaxAltitudekey (v_inputIndex : Z) (v_inputZoom : Z) (v_o
 let v_minAltitudeKey := 0 in
 let v_maxAltitudeKey := 0 in
 let v_err := false in
-let '(v_err, v_ok) := (validateIndexExists v_inputIndex v_inputZoom true) in
+if (orb (negb (CheckZoom v_inputZoom)) (negb (CheckZoom v_outputZoom)))
+then ((0, 0, true))
+else (let '(v_err, v_ok) := (validateIndexExists v_inputIndex v_inputZoom true) in
 if (negb v_ok)
 then ((0, 0, v_err))
 else (let v_fraction := (Z.sub v_inputZoom ZOriginValue) in
@@ -128,11 +130,13 @@ then ((0, 0, true))
 else ((v_minAltitudeKey, v_maxAltitudeKey, false)))
 else (if (negb v_ok)
 then ((0, 0, true))
-else ((v_minAltitudeKey, v_maxAltitudeKey, false))))).
+else ((v_minAltitudeKey, v_maxAltitudeKey, false)))))).
 
 (* transform.ConvertAltitudekeyToMinMaxZ  [transform/convert_quadkey_and_Vertical_id.go] *)
 Definition ConvertAltitudekeyToMinMaxZ (v_altitudekey : Z) (v_altitudekeyZoomLevel : Z) (v_outputZoom : Z) (v_zBaseExponent : Z) (v_zBaseOffset : Z) : (Z * Z * bool)%type :=
-let v_inputResolution := (CalculateArithmeticShift 1 v_altitudekeyZoomLevel) in
+if (orb (negb (CheckZoom v_altitudekeyZoomLevel)) (negb (CheckZoom v_outputZoom)))
+then ((0, 0, true))
+else (let v_inputResolution := (CalculateArithmeticShift 1 v_altitudekeyZoomLevel) in
 let v_maxInputIndex := (Z.sub v_inputResolution 1) in
 let v_minInputIndex := 0 in
 if (orb (Z.gtb v_altitudekey v_maxInputIndex) (Z.ltb v_altitudekey v_minInputIndex))
@@ -175,7 +179,7 @@ let v_maxOutputIndex := (Z.sub v_outputResolution 1) in
 let v_minOutputIndex := (Z.opp v_outputResolution) in
 if (orb (Z.gtb v_outputMaxIndex v_maxOutputIndex) (Z.ltb v_outputMinIndex v_minOutputIndex))
 then ((0, 0, true))
-else ((v_outputMinIndex, v_outputMaxIndex, false))))).
+else ((v_outputMinIndex, v_outputMaxIndex, false)))))).
 
 (* integrate.HorizontalZoomMinMax  [integrate/change_zoom.go] *)
 Definition HorizontalZoomMinMax (v_inputZoom : Z) (v_xIndex : Z) (v_yIndex : Z) (v_outputZoom : Z) : (Z * Z * Z * Z)%type :=
